@@ -387,3 +387,28 @@ Proof.
   { rewrite H2, H1. reflexivity. }
   split; [exact G|]. rewrite rstep_resp, G. reflexivity.
 Qed.
+
+(* the request side of the same statement: the look-up made by processRequest
+   and the one made by processResponse hand out the same record *)
+Lemma request_and_response_same d0 pre id seq t0 mid seq' status t :
+  smonotone (map proj (pre ++ Req id seq t0 :: mid ++ [Resp id seq' status t])) ->
+  lookup id (pins (base (acc (rafter (rinit d0) pre)))) = None ->
+  t <= t0 + ttl ->
+  let s1 := rafter (rinit d0) pre in
+  let s3 := rafter (fst (rstep s1 (Req id seq t0))) mid in
+  let D := committed_data d0 (map proj pre) in
+  snd (get (base (acc s1)) id t0)
+    = {| o_ver := cur (base (acc s1)); o_data := Some D; o_fallback := false |} /\
+  snd (get (base (acc s3)) id t) = snd (get (base (acc s1)) id t0).
+Proof.
+  intros M P Ht s1 s3 D.
+  rewrite map_app in M. cbn [map proj] in M. rewrite map_app in M. cbn [map proj] in M.
+  assert (acc s1 = safter (sinit d0) (map proj pre)) as E1.
+  { unfold s1. rewrite racc_after. reflexivity. }
+  assert (acc s3 = safter (fst (sstep (acc s1) (A (Get id t0)))) (map proj mid)) as E3.
+  { unfold s3. rewrite racc_after, racc_step. reflexivity. }
+  fold s1 in P. rewrite E1 in P.
+  destruct (pinned_interleaved d0 (map proj pre) id t0 (map proj mid) t M P Ht) as [H2 H1].
+  cbn zeta in H1, H2. rewrite <- E1 in H1, H2. rewrite <- E3 in H2.
+  split; [exact H1|exact H2].
+Qed.
